@@ -7,15 +7,14 @@ Known findings (IDNA / urlsplit are outside the model, so they have no Lean coun
 F15a `uri_to_iri` raises UnicodeError for a malformed `xn--` label, F15b `uri_to_iri` unquotes
 `%5B` / `%5D` inside the userinfo.
 
--- OPEN (P1, checked by stream iri-uri on every run, not proved): for every component text `s` whose
--- every '%' starts a two-hex-digit escape and every keep table `k` of `uri_to_iri`,
---   unquotePartial k (unquotePartial k s) = unquotePartial k s                      (uriToIri_fixpoint)
---   unquotePartial k (quote safe (unquotePartial k (quote safe s))) = unquotePartial k (quote safe s)
---                                                                                   (iri_uri_iri)
--- Missing: an inversion lemma for the UTF-8 decoder with error spans (`decodeQ`) stating that its
--- output re-encodes to the input bytes and that re-quoted spans stay undecodable in context.
+-- OPEN (P1, checked by stream iri-uri on every run, not proved): stability of the round trip
+-- IRI -> URI -> IRI, i.e. for every component text `s`, keep table `k` and safe set of `iri_to_uri`,
+--   with x := unquotePartial k (quote safe s):   unquotePartial k (quote safe x) = x      (iri_uri_iri)
+-- Missing: that `quote` of the decoder's output re-creates the same byte runs (the converse of
+-- `unquote_decodeQ`). The one-step fixpoint of `uri_to_iri` itself is proved below
+-- (`uriToIri_fixpoint`).
 -/
-import WzVerif.Lemmas.Url
+import WzVerif.Lemmas.UrlRoundtrip
 namespace Wz.Props.C15
 open Wz Wz.Url
 
@@ -149,6 +148,51 @@ theorem keep_tables_cover_reserved :
   revert n
   decide
 
+/-- The four keep tables of `uri_to_iri` (evaluated from the live patterns) keep `%` quoted and keep
+no byte ≥ 0x80 - what the fixpoint argument needs of them. -/
+theorem keep_tables_ok :
+    KeepOK Gen.UrlTables.keepPath ∧ KeepOK Gen.UrlTables.keepQuery ∧
+    KeepOK Gen.UrlTables.keepFragment ∧ KeepOK Gen.UrlTables.keepUser := by
+  have h : ∀ t : List Bool, tbl t 0x25 = true → (∀ n, n < 256 → 128 ≤ n → tbl t n = false) → KeepOK t :=
+    fun t h1 h2 => ⟨h1, fun n hn hl => h2 n hl hn⟩
+  exact ⟨h _ (by decide) (by decide +kernel), h _ (by decide) (by decide +kernel),
+    h _ (by decide) (by decide +kernel), h _ (by decide) (by decide +kernel)⟩
+
+/-- **`uri_to_iri` is a fixpoint after one step**, component-wise: on text whose every `%` starts a
+two-hex-digit escape (the property's `%XX` grammar - valid UTF-8, invalid bytes and reserved
+characters alike), applying a component's partial unquoter to its own output changes nothing:
+decoded characters stay, kept escapes stay, re-quoted undecodable bytes are undecodable again. -/
+theorem uriToIri_fixpoint (s : Str) (hs : wellFormed s = true) :
+    unquotePartial Gen.UrlTables.keepPath (unquotePartial Gen.UrlTables.keepPath s)
+      = unquotePartial Gen.UrlTables.keepPath s ∧
+    unquotePartial Gen.UrlTables.keepQuery (unquotePartial Gen.UrlTables.keepQuery s)
+      = unquotePartial Gen.UrlTables.keepQuery s ∧
+    unquotePartial Gen.UrlTables.keepFragment (unquotePartial Gen.UrlTables.keepFragment s)
+      = unquotePartial Gen.UrlTables.keepFragment s ∧
+    unquotePartial Gen.UrlTables.keepUser (unquotePartial Gen.UrlTables.keepUser s)
+      = unquotePartial Gen.UrlTables.keepUser s :=
+  ⟨unquotePartial_fix keep_tables_ok.1 s hs, unquotePartial_fix keep_tables_ok.2.1 s hs,
+   unquotePartial_fix keep_tables_ok.2.2.1 s hs, unquotePartial_fix keep_tables_ok.2.2.2 s hs⟩
+
+example : wellFormed "a%2Fb%C3%A9%FF%41%e2%82".toList = true := by decide
+
+/-- in terms of the split URL: the three components that travel unchanged through
+`urlunsplit` / `urlsplit` are fixed by a second `uri_to_iri` -/
+theorem uriToIri_fixpoint_parts (p : Parts) (hp : wellFormed p.path = true)
+    (hq : wellFormed p.query = true) (hf : wellFormed p.fragment = true) :
+    let i := uriToIri p
+    (uriToIri { p with path := i.path, query := i.query, fragment := i.fragment }).path = i.path ∧
+    (uriToIri { p with path := i.path, query := i.query, fragment := i.fragment }).query = i.query ∧
+    (uriToIri { p with path := i.path, query := i.query, fragment := i.fragment }).fragment = i.fragment :=
+  ⟨(uriToIri_fixpoint p.path hp).1, (uriToIri_fixpoint p.query hq).2.1,
+   (uriToIri_fixpoint p.fragment hf).2.2.1⟩
+
+/-- Outside that grammar the statement is false - a bare `%` can combine with a decoded digit
+(`uri_to_iri("%%34%31") = "%41"`, whose image is `"A"`): -/
+theorem uriToIri_fixpoint_needs_wellformed :
+    unquotePartial Gen.UrlTables.keepPath (unquotePartial Gen.UrlTables.keepPath "%%34%31".toList)
+      ≠ unquotePartial Gen.UrlTables.keepPath "%%34%31".toList := by decide
+
 /-- a kept escape is copied verbatim by `_unquote_partial` (here: a quoted slash in a path) -/
 example : unquotePartial Gen.UrlTables.keepPath "a%2Fb%C3%A9%FF%41".toList = "a%2Fbé%FFA".toList := by decide
 
@@ -156,6 +200,42 @@ example : unquotePartial Gen.UrlTables.keepPath "a%2Fb%C3%A9%FF%41".toList = "a%
 `_wsgi_decoding_dance(_wsgi_encoding_dance(s)) == s`. -/
 theorem dance_roundtrip (s : Str) : decodingDance (encodingDance s) = some s :=
   dance_roundtrip' s
+
+/-- `unquote` inverts `quote` on every text without `%`, for every safe set (with werkzeug's error
+handler and with `errors="replace"` alike): percent-encoding never changes what a component means. -/
+theorem unquote_quote_inverse (safe s : Str) (h : '%' ∉ s) :
+    unquote (quote safe s) = s ∧ unquoteReplace (quote safe s) = s :=
+  ⟨unquote_quote safe s h, unquoteReplace_quote safe s h⟩
+
+example : unquote (quote "/".toList "/é 日本/#?".toList) = "/é 日本/#?".toList := by decide
+
+/-- with a `%` in the text the statement is false for the safe sets that contain `%` (the text is
+then read as already quoted): -/
+theorem unquote_quote_needs_no_percent :
+    unquote (quote Gen.UrlTables.iriPathSafe "%41".toList) ≠ "%41".toList := by decide
+
+/-- **Environ round trip of the path.** For every path of Unicode scalar values without `%`, the
+`PATH_INFO` that `EnvironBuilder` derives (`_wsgi_encoding_dance(unquote(iri_to_uri(path)))`) is read
+back exactly by the decoding dance, and `Request.path` is exactly the path when it starts with a
+single `/` (urlsplit, which sits in front, is opaque - see known finding F15c). -/
+theorem environ_path_roundtrip (p : Str) (hp : '%' ∉ p) :
+    decodingDance (environPathInfo p) = some p ∧
+    (∀ q, p = '/' :: q → q.head? ≠ some '/' → requestPath (environPathInfo p) = some p) := by
+  have h1 : decodingDance (environPathInfo p) = some p := by
+    unfold environPathInfo
+    rw [unquoteReplace_quote _ p hp]
+    exact dance_roundtrip p
+  refine ⟨h1, ?_⟩
+  intro q hq hhead
+  simp only [requestPath, h1, Option.map_some, Option.some.injEq]
+  subst hq
+  cases q with
+  | nil => rfl
+  | cons c t =>
+    have hc : c ≠ '/' := by simpa using hhead
+    simp [List.dropWhile, hc]
+
+example : requestPath (environPathInfo "/é/日本 x".toList) = some "/é/日本 x".toList := by decide
 
 /-- `DispatcherMiddleware` preserves the concatenation: what it appends to SCRIPT_NAME followed by
 the new PATH_INFO is the original PATH_INFO, for every mount table and every path. -/
